@@ -4,6 +4,7 @@ CONSTANTS
   Brushes = { "d1", "d2", "d3", "d4" }
   Levels <- NegPos
   Variant = "paper"
+  DesignSet <- AllLevels
 INVARIANT TypeOK
 INVARIANT NoConflict
 INVARIANT Progress
